@@ -2,13 +2,17 @@ package main
 
 import (
 	"bytes"
+	"fmt"
 	"go/ast"
 	"go/parser"
 	"go/printer"
 	"go/token"
 	"go/types"
 	"path/filepath"
+	"sort"
 	"strings"
+
+	"golang.org/x/tools/go/packages"
 
 	"verif/engine/exec"
 )
@@ -18,15 +22,72 @@ import (
 // synchronisation operation and every go statement registers the new goroutine with the native scheduler.
 // The set of gated operations is exactly exec.InstrumentedCallees + channel send/receive/select/close + verifYield,
 // resolved with go/types (so sync.Mutex reached through the repo's internal/sync aliases is recognised).
-func instrumentForSchedule(prog *exec.Program) (map[string][]byte, error) {
+//
+// With locks set, every mutex Lock/RLock statement of the package is followed by verifLockInc() and every Unlock/RUnlock
+// (plain or deferred) preceded by verifLockDec(), so that verifHeldLocks() has a native meaning too: the number of
+// mutexes of this package currently held.
+func instrumentForSchedule(prog *exec.Program, sched, locks bool) (map[string][]byte, error) {
 	out := map[string][]byte{}
-	pkg := prog.Pkgs[0]
+	harnessPkg := prog.Pkgs[0]
+	var deps []*packages.Package
+	packages.Visit(prog.Pkgs, nil, func(p *packages.Package) {
+		if p != harnessPkg && (p.PkgPath == exec.RepoModule || strings.HasPrefix(p.PkgPath, exec.RepoModule+"/")) {
+			deps = append(deps, p)
+		}
+	})
+	sort.Slice(deps, func(i, j int) bool { return deps[i].PkgPath < deps[j].PkgPath })
+	if err := instrumentPkg(prog, harnessPkg, "verif", sched, locks, out); err != nil {
+		return nil, err
+	}
+	// the other packages of the module call the harness package's scheduler through hook variables (they cannot import it)
+	var hooked []*packages.Package
+	for _, p := range deps {
+		before := len(out)
+		if err := instrumentPkg(prog, p, "VerifHook", sched, locks, out); err != nil {
+			return nil, err
+		}
+		if len(out) == before || len(p.GoFiles) == 0 {
+			continue
+		}
+		hooked = append(hooked, p)
+		dir := filepath.Dir(p.GoFiles[0])
+		out[filepath.Join(dir, "zz_verif_hook.go")] = []byte("package " + p.Name + `
+
+// hooks of the native schedule replay: set by the harness package's init
+var (
+	VerifHookSched   = func() {}
+	VerifHookSpawn   = func() int { return 0 }
+	VerifHookEnter   = func(int) {}
+	VerifHookLeave   = func(int) {}
+	VerifHookLockInc = func() {}
+	VerifHookLockDec = func() {}
+)
+`)
+	}
+	if len(hooked) > 0 && len(harnessPkg.GoFiles) > 0 {
+		var b strings.Builder
+		b.WriteString("package " + harnessPkg.Name + "\n\nimport (\n")
+		for i, p := range hooked {
+			fmt.Fprintf(&b, "\tverifhook%d %q\n", i, p.PkgPath)
+		}
+		b.WriteString(")\n\nfunc init() {\n")
+		for i := range hooked {
+			fmt.Fprintf(&b, "\tverifhook%d.VerifHookSched, verifhook%d.VerifHookSpawn, verifhook%d.VerifHookEnter, verifhook%d.VerifHookLeave = verifSched, verifSpawn, verifEnter, verifLeave\n", i, i, i, i)
+			fmt.Fprintf(&b, "\tverifhook%d.VerifHookLockInc, verifhook%d.VerifHookLockDec = verifLockInc, verifLockDec\n", i, i)
+		}
+		b.WriteString("}\n")
+		out[filepath.Join(filepath.Dir(harnessPkg.GoFiles[0]), "zz_verif_hooks_gen.go")] = []byte(b.String())
+	}
+	return out, nil
+}
+
+func instrumentPkg(prog *exec.Program, pkg *packages.Package, prefix string, sched, locks bool, out map[string][]byte) error {
 	for _, file := range pkg.Syntax {
 		name := prog.Fset.Position(file.Pos()).Filename
 		if filepath.Base(name) == "zz_verif_rt.go" || strings.HasSuffix(name, "_test.go") {
 			continue
 		}
-		in := &instrumenter{info: pkg.TypesInfo}
+		in := &instrumenter{info: pkg.TypesInfo, sched: sched, locks: locks, prefix: prefix}
 		for _, d := range file.Decls {
 			if fd, ok := d.(*ast.FuncDecl); ok && fd.Body != nil {
 				fd.Body.List = in.block(fd.Body.List)
@@ -48,16 +109,49 @@ func instrumentForSchedule(prog *exec.Program) (map[string][]byte, error) {
 		// print without the original comments: they are attached by position and the inserted statements have none
 		file.Comments = nil
 		if err := printer.Fprint(&buf, token.NewFileSet(), file); err != nil {
-			return nil, err
+			return err
 		}
 		out[name] = buf.Bytes()
 	}
-	return out, nil
+	return nil
 }
 
 type instrumenter struct {
 	info    *types.Info
 	changed bool
+	sched   bool
+	locks   bool
+	prefix  string // "verif" in the harness package, "VerifHook" elsewhere
+}
+
+// name maps a scheduler entry point (Sched, Spawn, Enter, Leave, LockInc, LockDec) to its name in this package.
+func (in *instrumenter) name(what string) string { return in.prefix + what }
+
+func callStmt(name string) ast.Stmt {
+	return &ast.ExprStmt{X: &ast.CallExpr{Fun: ast.NewIdent(name)}}
+}
+
+// lockCall classifies a call expression: +1 for Lock/RLock on a sync mutex, -1 for Unlock/RUnlock, 0 otherwise.
+func (in *instrumenter) lockCall(e ast.Expr) int {
+	c, ok := e.(*ast.CallExpr)
+	if !ok {
+		return 0
+	}
+	sel, ok := c.Fun.(*ast.SelectorExpr)
+	if !ok {
+		return 0
+	}
+	fn, ok := in.info.Uses[sel.Sel].(*types.Func)
+	if !ok {
+		return 0
+	}
+	switch fn.FullName() {
+	case "(*sync.Mutex).Lock", "(*sync.RWMutex).Lock", "(*sync.RWMutex).RLock":
+		return 1
+	case "(*sync.Mutex).Unlock", "(*sync.RWMutex).Unlock", "(*sync.RWMutex).RUnlock":
+		return -1
+	}
+	return 0
 }
 
 func schedStmt() ast.Stmt {
@@ -68,9 +162,33 @@ func (in *instrumenter) block(list []ast.Stmt) []ast.Stmt {
 	var out []ast.Stmt
 	for _, s := range list {
 		s = in.rewrite(s)
-		if in.hasVisible(s) {
-			out = append(out, schedStmt())
+		if in.sched && in.hasVisible(s) {
+			out = append(out, callStmt(in.name("Sched")))
 			in.changed = true
+		}
+		if in.locks {
+			switch v := s.(type) {
+			case *ast.ExprStmt:
+				switch in.lockCall(v.X) {
+				case 1:
+					out = append(out, s, callStmt(in.name("LockInc")))
+					in.changed = true
+					continue
+				case -1:
+					out = append(out, callStmt(in.name("LockDec")), s)
+					in.changed = true
+					continue
+				}
+			case *ast.DeferStmt:
+				if in.lockCall(v.Call) == -1 {
+					in.changed = true
+					out = append(out, &ast.DeferStmt{Call: &ast.CallExpr{Fun: &ast.FuncLit{
+						Type: &ast.FuncType{Params: &ast.FieldList{}},
+						Body: &ast.BlockStmt{List: []ast.Stmt{callStmt(in.name("LockDec")), &ast.ExprStmt{X: v.Call}}},
+					}}})
+					continue
+				}
+			}
 		}
 		out = append(out, s)
 	}
@@ -134,15 +252,18 @@ func (in *instrumenter) rewrite(s ast.Stmt) ast.Stmt {
 		v.Stmt = in.rewrite(v.Stmt)
 	case *ast.GoStmt:
 		in.funcLits(v.Call)
+		if !in.sched {
+			return s
+		}
 		in.changed = true
 		tid := ast.NewIdent("verifTid")
 		return &ast.BlockStmt{List: []ast.Stmt{
-			&ast.AssignStmt{Lhs: []ast.Expr{tid}, Tok: token.DEFINE, Rhs: []ast.Expr{&ast.CallExpr{Fun: ast.NewIdent("verifSpawn")}}},
+			&ast.AssignStmt{Lhs: []ast.Expr{tid}, Tok: token.DEFINE, Rhs: []ast.Expr{&ast.CallExpr{Fun: ast.NewIdent(in.name("Spawn"))}}},
 			&ast.GoStmt{Call: &ast.CallExpr{Fun: &ast.FuncLit{
 				Type: &ast.FuncType{Params: &ast.FieldList{}},
 				Body: &ast.BlockStmt{List: []ast.Stmt{
-					&ast.ExprStmt{X: &ast.CallExpr{Fun: ast.NewIdent("verifEnter"), Args: []ast.Expr{tid}}},
-					&ast.DeferStmt{Call: &ast.CallExpr{Fun: ast.NewIdent("verifLeave"), Args: []ast.Expr{tid}}},
+					&ast.ExprStmt{X: &ast.CallExpr{Fun: ast.NewIdent(in.name("Enter")), Args: []ast.Expr{tid}}},
+					&ast.DeferStmt{Call: &ast.CallExpr{Fun: ast.NewIdent(in.name("Leave")), Args: []ast.Expr{tid}}},
 					&ast.ExprStmt{X: v.Call},
 				}},
 			}}},
